@@ -19,11 +19,14 @@ import (
 	"context"
 	"errors"
 	"fmt"
+	"github.com/thushan/olla/internal/config"
+	"github.com/thushan/olla/internal/zz_verif/stack"
 	"net/url"
 	"runtime"
 	"sort"
 	"strings"
 	"sync"
+	"sync/atomic"
 	"time"
 
 	"github.com/thushan/olla/internal/adapter/discovery"
@@ -55,7 +58,7 @@ type op struct {
 	Fail   bool   `json:"fail,omitempty"`
 	// Cancel: the listing is fetched, but the discovery round's context is cancelled before the registry is reached
 	// (what a sibling endpoint's failure does to the round's errgroup): a failed update, like Fail
-	Cancel bool `json:"cancel,omitempty"`
+	Cancel bool   `json:"cancel,omitempty"`
 	I      int    `json:"i,omitempty"`
 	URL    string `json:"url,omitempty"`
 }
@@ -101,13 +104,13 @@ func (c *client) DiscoverModels(ctx context.Context, e *domain.Endpoint) ([]*dom
 	return f()
 }
 func (c *client) HealthCheck(ctx context.Context, e *domain.Endpoint) error { return nil }
-func (c *client) GetMetrics() discovery.DiscoveryMetrics                   { return discovery.DiscoveryMetrics{} }
+func (c *client) GetMetrics() discovery.DiscoveryMetrics                    { return discovery.DiscoveryMetrics{} }
 
 type repo struct{ eps []*domain.Endpoint }
 
-func (r *repo) GetAll(ctx context.Context) ([]*domain.Endpoint, error)      { return r.eps, nil }
-func (r *repo) GetRoutable(ctx context.Context) ([]*domain.Endpoint, error) { return r.eps, nil }
-func (r *repo) GetHealthy(ctx context.Context) ([]*domain.Endpoint, error)  { return r.eps, nil }
+func (r *repo) GetAll(ctx context.Context) ([]*domain.Endpoint, error)       { return r.eps, nil }
+func (r *repo) GetRoutable(ctx context.Context) ([]*domain.Endpoint, error)  { return r.eps, nil }
+func (r *repo) GetHealthy(ctx context.Context) ([]*domain.Endpoint, error)   { return r.eps, nil }
 func (r *repo) UpdateEndpoint(ctx context.Context, e *domain.Endpoint) error { return nil }
 func (r *repo) Exists(ctx context.Context, u *url.URL) bool                  { return true }
 
@@ -456,11 +459,11 @@ var patAlpha = []string{"*", "x*", "*x", "*a*", "a*", "a::a*", "X", "y", "*:8b",
 	"", " ", "a**", "a*b", "*a*b*", "**"}
 
 type gen struct {
-	r    *vlib.Rng
-	n    int
-	cur  [][]mdl // shadow of the last accepted listing per endpoint (nil = none)
-	pend int     // forced mode: number of pending unifications
-	again *op    // a discovery to repeat as the next op (the listing of a cancelled round arriving again)
+	r     *vlib.Rng
+	n     int
+	cur   [][]mdl // shadow of the last accepted listing per endpoint (nil = none)
+	pend  int     // forced mode: number of pending unifications
+	again *op     // a discovery to repeat as the next op (the listing of a cancelled round arriving again)
 }
 
 func (g *gen) pickModels(k int) []*mdl {
@@ -682,12 +685,94 @@ func M(name string, digest ...string) *mdl {
 	return m
 }
 
+// prodLoop: the production wiring left to itself. Two backends change what they list; nothing drives discovery
+// here: the periodic model-discovery loop the service manager starts (interval 1 s) has to pick the changes
+// up, and the model -> endpoints attribution must then be that of the most recent listings.
+func prodLoop() map[string]any {
+	type lst = []string
+	rounds := [][2]lst{{{"zz-x", "zz-y"}, {"zz-y"}}, {{"zz-x"}, {"zz-y", "zz-z"}}, {{}, {"zz-z", "zz-x"}}}
+	var cur [2]atomic.Value
+	var bes [2]*stack.Backend
+	for i := range bes {
+		i := i
+		bes[i] = stack.NewBackend(string(rune('A' + i)))
+		cur[i].Store(rounds[0][i])
+		bes[i].Listing = func(path string) (int, string) {
+			if !strings.HasSuffix(path, "/models") {
+				return 0, ""
+			}
+			var items []string
+			for _, m := range cur[i].Load().(lst) {
+				items = append(items, fmt.Sprintf(`{"id":%q,"object":"model"}`, m))
+			}
+			return 200, `{"object":"list","data":[` + strings.Join(items, ",") + `]}`
+		}
+		defer bes[i].Close()
+	}
+	s, err := stack.Start(stack.Opts{Engine: "sherpa", Balancer: "priority", ModelDiscovery: true,
+		EPs:    []stack.EP{{Name: "A", Type: "openai", Priority: 200, Backend: bes[0]}, {Name: "B", Type: "openai", Priority: 100, Backend: bes[1]}},
+		Mutate: func(cfg *config.Config) { cfg.Discovery.ModelDiscovery.Interval = time.Second }})
+	if err != nil {
+		return map[string]any{"start_err": err.Error()}
+	}
+	defer s.Stop()
+	reg, err := s.Disc.GetRegistry()
+	if err != nil {
+		return map[string]any{"start_err": err.Error()}
+	}
+	urls := []string{bes[0].URL(), bes[1].URL()}
+	attribution := func() map[string][]int {
+		out := map[string][]int{}
+		for _, m := range []string{"zz-x", "zz-y", "zz-z"} {
+			got, _ := reg.GetEndpointsForModel(context.Background(), m)
+			idx := []int{}
+			for _, u := range got {
+				for i, w := range urls {
+					if strings.TrimRight(u, "/") == strings.TrimRight(w, "/") {
+						idx = append(idx, i)
+					}
+				}
+			}
+			sort.Ints(idx)
+			out[m] = idx
+		}
+		return out
+	}
+	want := func(r [2]lst) map[string][]int {
+		out := map[string][]int{"zz-x": {}, "zz-y": {}, "zz-z": {}}
+		for i, l := range r {
+			for _, m := range l {
+				out[m] = append(out[m], i)
+			}
+		}
+		return out
+	}
+	var obs []map[string]any
+	for ri, r := range rounds {
+		cur[0].Store(r[0])
+		cur[1].Store(r[1])
+		deadline := time.Now().Add(6 * time.Second) // several periods of the loop
+		var got map[string][]int
+		for time.Now().Before(deadline) {
+			got = attribution()
+			if fmt.Sprint(got) == fmt.Sprint(want(r)) {
+				break
+			}
+			time.Sleep(50 * time.Millisecond)
+		}
+		obs = append(obs, map[string]any{"round": ri, "listed": r, "want": want(r), "got": got})
+	}
+	return map[string]any{"rounds": obs}
+}
+
 func main() {
 	tier := vlib.Tier()
 	thorough := tier == "thorough"
 	r := vlib.NewRng(vlib.Seed())
 	c := vlib.OpenCases("cases.jsonl")
 	d1, d2 := "sha256:d1d1d1d1d1d1", "sha256:d2d2d2d2d2d2"
+	loopRes := make(chan map[string]any, 1)
+	go func() { loopRes <- prodLoop() }()
 
 	// ---- the corpus: known witnesses and hand-written corner cases first
 	// #10 rejected RegisterModels mutates the index
@@ -845,6 +930,8 @@ func main() {
 		caseGlobFn(c, p, strs)
 		c.Count("globfn")
 	}
+	c.Emit(map[string]any{"kind": "prodloop", "impl": <-loopRes})
+	c.Count("prodloop")
 	c.Close(map[string]any{"exhaustive": true,
 		"exhaustive_note": fmt.Sprintf("globfn: every pattern of length <= %d x every string of length <= %d over {a,B,*,:,space} through pattern.MatchesGlob and FilterConfig.Validate; histories and cache sequences are sampled (state-directed)", pl, sl)})
 }
